@@ -1,6 +1,7 @@
 package props
 
 import (
+	"context"
 	"fmt"
 	"runtime"
 	"sync"
@@ -104,7 +105,7 @@ func genCfg(c *core.Ctx, idx int, plans []wl.NamedPlan) wl.Cfg {
 		cfg.Sizes = []int{1, 15, 16, 17, 40}
 		cfg.Plan = []mon.Step{{At: "tW0", Occ: 0, Kind: mon.Sleep, D: time.Duration(50+rng.Intn(300)) * time.Microsecond}}
 		cfg.PlanKind = "write-buffered-wrapper:every-conn-write-slow"
-		if rng.Intn(2) == 0 {
+		if cfg.Mode != mon.NonBlock && rng.Intn(3) == 0 {
 			// the channel is closed while writes (and their flushes) are still in flight on the slow connection
 			cfg.Closer, cfg.LateWriters = 1, 1+rng.Intn(2)
 			cfg.PlanKind += "+close-in-flight"
@@ -113,7 +114,95 @@ func genCfg(c *core.Ctx, idx int, plans []wl.NamedPlan) wl.Cfg {
 	return cfg
 }
 
+// c01DeadlineCross: synchronous channel on a connection that honours write deadlines. Write1 (no deadline) is stalled
+// inside the connection when another goroutine issues a CtxWrite with a deadline context; the connection's clock is then
+// moved past that deadline and the stalled write resumes. Whatever the second call does, the first one has no deadline:
+// it is handed over whole, and a call that reports an error has contributed nothing.
+func c01DeadlineCross(c *core.Ctx, id string, idx int) {
+	rng := c.Rand("deadline-cross", idx)
+	tr := mon.NewRecTransport()
+	tr.HonourDeadlines = true
+	plan := []mon.Step{{At: "tW0", Occ: 1, Kind: mon.Gate, Until: "go", UntilCount: 1, Timeout: 5 * time.Second},
+		{At: "tV0", Occ: 1, Kind: mon.Gate, Until: "go", UntilCount: 1, Timeout: 5 * time.Second}}
+	rig := mon.NewRig(mon.RigOpts{Mode: mon.Sync, Plan: plan, Tr: tr, QuietTail: true})
+	defer rig.Dispose()
+	pa, pb := mon.Payload(1, 0, 64+rng.Intn(200)), mon.Payload(2, 0, 64)
+	type res struct{ err error }
+	ra, rb := make(chan res, 1), make(chan res, 1)
+	go func() {
+		var err error
+		if idx%2 == 0 {
+			_, err = rig.Ch.Write1(append([]byte(nil), pa...))
+		} else {
+			_, err = rig.Ch.Writev([][]byte{append([]byte(nil), pa[:10]...), append([]byte(nil), pa[10:]...)})
+		}
+		ra <- res{err}
+	}()
+	if !rig.S.Await("tW0", 1, 3*time.Second) && !rig.S.Await("tV0", 1, time.Second) {
+		rig.S.Mark("go")
+		c.Inconclusive(id, "first write never reached the transport")
+		return
+	}
+	ctx, cancel := context.WithDeadline(context.Background(), tr.Now().Add(time.Hour))
+	defer cancel()
+	go func() {
+		var err error
+		if (idx/2)%2 == 0 {
+			_, err = rig.Ch.CtxWrite1(ctx, append([]byte(nil), pb...))
+		} else {
+			_, err = rig.Ch.CtxWritev(ctx, [][]byte{append([]byte(nil), pb...)})
+		}
+		rb <- res{err}
+	}()
+	// give the second call time to get as far as it can (it waits for the first one's write lock)
+	for i := 0; i < 200 && tr.WriteDeadline().IsZero() && mon.ParkedIn("(*channel).CtxWrite", "sync.Mutex.Lock", "semacquire") == 0; i++ {
+		time.Sleep(100 * time.Microsecond)
+	}
+	tr.AdvanceClock(2 * time.Hour)
+	rig.S.Mark("go")
+	var a, b res
+	select {
+	case a = <-ra:
+	case <-time.After(5 * time.Second):
+		c.Inconclusive(id, "watchdog: first write did not return")
+		return
+	}
+	select {
+	case b = <-rb:
+	case <-time.After(5 * time.Second):
+		c.Inconclusive(id, "watchdog: second write did not return")
+		return
+	}
+	c.Count("deadline_cross_trials", 1)
+	_, wire := rig.T.Snapshot()
+	recs, perrs := mon.ParseWire(wire)
+	on := map[int]bool{}
+	for _, r := range recs {
+		on[r.W] = true
+	}
+	where := fmt.Sprintf("[sync channel, deadline-honouring connection; first write err=%v, CtxWrite with deadline err=%v, wire %d bytes]", a.err, b.err, len(wire))
+	switch {
+	case len(perrs) > 0:
+		c.Violation("C01:wire-corrupt", id, "a write without a deadline, stalled in the connection while another call armed a write deadline, was cut short: "+perrs[0].String()+" "+where, nil)
+	case a.err != nil && on[1]:
+		c.Violation("C01:failed-write-transmitted", id, "the first write returned an error but its payload is on the wire "+where, nil)
+	case a.err == nil && !on[1]:
+		c.Violation("C01:accepted-payload-skipped", id, "the first write returned nil but its payload is not on the wire "+where, nil)
+	case b.err != nil && on[2]:
+		c.Violation("C01:failed-write-transmitted", id, "the CtxWrite returned an error but its payload is on the wire "+where, nil)
+	}
+}
+
 func runC01(c *core.Ctx) {
+	for i, n := 0, c.Scale(64, 1280); i < n; i++ {
+		if !c.Mine(i) {
+			continue
+		}
+		id := fmt.Sprintf("deadline-cross%d", i)
+		if c.CaseQuiet(id) {
+			c01DeadlineCross(c, id, i)
+		}
+	}
 	plans := wl.WindowPlans(20 * time.Millisecond)
 	total := c.Scale(16000, 200000)
 	stuck := 0
